@@ -201,6 +201,9 @@ func intendedGraph(ops []DagOp) *iGraph {
 				continue
 			}
 			g.v[v].retries = op.N
+			if op.N < 0 {
+				g.v[v].retries = 0 // a negative number of retries means none: the task still runs once
+			}
 		}
 	}
 	return g
@@ -1464,6 +1467,8 @@ func genDagCase(r *rand.Rand, id int, prop string) *DagCase {
 				retries = 3 + r.Intn(3)
 			}
 			c.Ops = append(c.Ops, DagOp{Op: "retries", T: ref(i), N: retries})
+		} else if r.Intn(40) == 0 {
+			c.Ops = append(c.Ops, DagOp{Op: "retries", T: ref(i), N: -1 - r.Intn(2)})
 		}
 		var outs []string
 		for k := 0; k <= retries; k++ {
